@@ -874,6 +874,16 @@ func noWritesUnderReadLock(c *core.Ctx) {
 							}
 						}
 					}
+					// the same through a callee: what is called under the read lock writes shared state
+					if ci, ok := ins.(ssa.CallInstruction); ok {
+						if _, isDefer := ins.(*ssa.Defer); !isDefer {
+							if cal := ci.Common().StaticCallee(); cal != nil && core.RepoFunc(cal) {
+								if w := writesSharedState(p, cal, 3, map[*ssa.Function]bool{}); w != "" {
+									bad = p.Pos(ins.Pos()) + " (" + cal.Name() + " → " + w + ")"
+								}
+							}
+						}
+					}
 				}
 			}
 			for _, s := range b.Succs {
@@ -1018,4 +1028,52 @@ func setIPAcceptsTheEnd(c *core.Ctx) {
 	if n == 0 {
 		core.Undecidedf("no exported VirtualMachine method stores an int parameter into ip")
 	}
+}
+
+// writesSharedState: fn (or a static callee, to the given depth) updates a map
+// reached from a package variable or a field, or stores to a field of an object
+// it did not allocate itself.  Returns a description of the first such write.
+func writesSharedState(p *core.Program, fn *ssa.Function, depth int, seen map[*ssa.Function]bool) string {
+	if fn == nil || fn.Blocks == nil || seen[fn] || depth < 0 {
+		return ""
+	}
+	seen[fn] = true
+	for _, b := range fn.Blocks {
+		for _, in := range b.Instrs {
+			switch x := in.(type) {
+			case *ssa.MapUpdate:
+				for _, o := range core.Origins(x.Map) {
+					if u, ok := o.(*ssa.UnOp); ok {
+						switch u.X.(type) {
+						case *ssa.Global, *ssa.FieldAddr:
+							return "map write at " + p.Pos(x.Pos())
+						}
+					}
+				}
+			case *ssa.Store:
+				if fa, ok := x.Addr.(*ssa.FieldAddr); ok {
+					root := addrRoot(fa)
+					if u, ok := root.(*ssa.UnOp); ok {
+						root = addrRoot(u.X)
+					}
+					switch root.(type) {
+					case *ssa.Parameter, *ssa.Global:
+						return "field write at " + p.Pos(x.Pos())
+					}
+				}
+			}
+		}
+	}
+	for _, b := range fn.Blocks {
+		for _, in := range b.Instrs {
+			if ci, ok := in.(ssa.CallInstruction); ok {
+				if cal := ci.Common().StaticCallee(); cal != nil && core.RepoFunc(cal) {
+					if w := writesSharedState(p, cal, depth-1, seen); w != "" {
+						return cal.Name() + " → " + w
+					}
+				}
+			}
+		}
+	}
+	return ""
 }
